@@ -425,10 +425,18 @@ class Ctx:
 
         known = {f['tag']: f for f in self.findings if f.get('status') == 'known'}
         unlisted = []
+        def lookup(tag):
+            # a listed tag covers itself and its dotted sub-aspects (tag + '.…')
+            if tag in known:
+                return tag
+            for k in known:
+                if tag.startswith(k + '.'):
+                    return k
+            return None
         for bad in self.spec_bad:
-            f = known.get(bad['tag'])
-            if f is not None:
-                self.known_hits.setdefault(bad['tag'], bad)
+            k = lookup(bad['tag'])
+            if k is not None:
+                self.known_hits.setdefault(k, bad)
             else:
                 unlisted.append(bad)
         for tag, bad in self.known_hits.items():
